@@ -71,6 +71,34 @@ class Driver(object):
                     b.drop('eof')
                 return True
             br.handlers[steps[r[1]]] = refuse
+        if m.get('pre') == 'dropmid':
+            # an earlier attempt on the SAME connection object was cut off by the peer in the
+            # middle of the Connection.Start frame; the attempt observed below starts afresh
+            from harness.broker import Broker, marshal
+            pre = Broker()
+            real_attach = rt.on_connect
+            state = {'n': 0}
+
+            def attach(sock):
+                state['n'] += 1
+                (pre.attach if state['n'] == 1 else real_attach)(sock)
+            rt.on_connect = attach
+
+            def cut(b, ch, fr):
+                raw = marshal(spec.Connection.Start(mechanisms='PLAIN', locales='en_US'), 0)
+                b.push_bytes(raw[:23])
+                b.drop('eof')
+                return True
+            pre.handlers['ProtocolHeader'] = cut
+            rt.idle_hooks.insert(0, pre.step)
+            try:
+                conn.open()
+            except AMQPConnectionError:
+                pass
+            rt.idle_hooks.remove(pre.step)
+            t_pre = rt.now
+        else:
+            t_pre = 0.0
         result = 'OpenOk'
         try:
             conn.open()
@@ -79,7 +107,7 @@ class Driver(object):
                                       else '(Some %s)' % coq_Z(why.error_code))
         except Exception as why:   # any other type is a violation
             result = 'OpenOther'
-        elapsed = rt.now
+        elapsed = rt.now - t_pre
         is_open = conn.is_open
         outs = []
         for ch, fr in br.client_frames():
@@ -146,6 +174,10 @@ class Driver(object):
                 metas.append(self.base(refusal=r, mechs='AMQPLAIN EXTERNAL',
                                        user=rnd.choice(creds)))
                 metas.append(self.base(refusal=r, mechs='ANONYMOUS'))
+        for k in range(6 if tier == 'quick' else 30):
+            mm = self.base(cmax=rnd.choice(CMAX), fmax=rnd.choice(FMAX))
+            mm['pre'] = 'dropmid'
+            metas.append(mm)
         n = 60 if tier == 'quick' else 600
         for _ in range(n):
             toks = rnd.choices(TOKENS, k=rnd.randrange(0, 5))
